@@ -215,6 +215,10 @@ class Effects:
                     yield from self.live_stmts(st.body, spec)
                 if c is not True:
                     yield from self.live_stmts(st.orelse, spec)
+                # a branch that is certainly taken and certainly leaves the block makes the rest dead
+                taken = st.body if c is True else st.orelse if c is False else None
+                if taken and isinstance(taken[-1], (ast.Return, ast.Raise, ast.Continue, ast.Break)):
+                    return
             elif isinstance(st, (ast.For, ast.AsyncFor, ast.While)):
                 yield st
                 yield from self.live_stmts(st.body, spec)
@@ -236,6 +240,8 @@ class Effects:
                 continue
             else:
                 yield st
+                if isinstance(st, (ast.Return, ast.Raise, ast.Continue, ast.Break)):
+                    return
 
     def header_exprs(self, st: ast.stmt) -> list[ast.AST]:
         if isinstance(st, ast.If):
